@@ -194,4 +194,19 @@ PROPS = {
                  thorough=dict(checks=1600, shards=16, budget_s=3300, shrink="3m")),
         ],
     ),
+    "C02": dict(
+        level="exploration",
+        text="Exploration by generated search on real meshes: node IDs, service names, payloads (every boundary length up to the MTU), topologies, link kinds (datagram or receptor's own stream "
+             "framing read in arbitrary piece sizes) and concurrent sender batches are drawn; every listener records everything it receives and the multiset of (payload, source node, source "
+             "service) per listener must equal the multiset addressed to it - nothing lost, altered, duplicated or handed to another listener.",
+        note="Trusted: reliable in-memory links; the stream variant exercises receptor's framer and ExternalBackend exactly as TCP does (real TCP/websocket sockets are a thorough-tier transport). "
+             "64-bit name-hash collisions are out of reach and not attempted.",
+        technique="property-based testing (rapid): generated names/payloads/topologies/chunkings with a multiset-equality oracle over all listeners",
+        assumptions=["node IDs are valid UTF-8 and not 'localhost' in any letter case", "links are reliable, so exactly-once is required (deadline 30 s)"],
+        parts=[
+            part("datagrams", "netprops", "TestC02", "C02",
+                 quick=dict(checks=120, shards=8, budget_s=420),
+                 thorough=dict(checks=4000, shards=16, budget_s=3300, shrink="3m")),
+        ],
+    ),
 }
